@@ -42,6 +42,11 @@ CHECKS["C15"] = dict(cat="exploration", engine="txn",
    text="Transactions with 1-4 named inserts; names in scalar/optional/set/map-key/map-value/map-key+value uuid positions of row values, conditions (incl. _uuid) and mutation arguments, before and after the defining insert, with explicit or server-assigned uuids; strings equal to names in string columns; conflicting claims of a name. The expansion is compared position by position and the stored rows are compared with the reference resolution (using the uuids the inserts reported); no named uuid may survive. Held = on the transactions generated.",
    note="Reference columns are plain uuid or weak so that integrity rules do not mask the transactions of interest; a uuid identifies a row of one table.", ref="4/C15")
 
+CHECKS["C16"] = dict(cat="fault_enumeration", engine="wire",
+   technique="fault-injecting JSON-RPC proxy cutting the connection at every message boundary of a recorded fault-free session (both directions, between and inside messages) + cache-vs-database comparison after a barrier + exactly-once marker audit; race detector on",
+   text="A library client with reconnect (back-off 10 ms) talks to a library server through a proxy that frames JSON messages; a second writer is connected directly. For each session shape (1-3 monitors, every monitor method, client transactions, writer transactions before/during/after the outage) a fault-free run gives the message count per direction; then the session is re-run once per boundary and direction with a cut after message k and a cut inside message k, plus double cuts, refused connection attempts and black holes that only the inactivity probe can detect. After the faults the client must be connected again (bounded progress, no wall-clock verdict: a session that does not recover is reported with the proxy log), then a barrier transaction by the direct writer is awaited and the cache must equal the database on every monitored table and column of every monitor; each client Transact writes a unique marker: results => stored exactly once, error => at most once. Race reports with a libovsdb frame are violations.",
+   note="The built-in server always answers monitor_cond_since with found=false, so the found=true branch is not reachable; leader-only mode is exercised by the C16 leader sub-check when present in evidence (counter sessions.leader).", ref="4/C16")
+
 CHECKS["C09"] = dict(cat="exploration", engine="codec",
    technique="round-trip identity monitor + independent RFC 7047 encoder + wrong-type probes",
    text="Generated schemas over the whole type space (incl. real/boolean map keys, bounded sets, enums, references, scalar uuids) and generated rows (empty/singleton/multi collections, nil/non-nil optionals, zero values, integers at 0, +-1, +-2^31, +-2^53(+1), +-2^62, min/max int64): model -> NewRow -> JSON -> Row.UnmarshalJSON -> GetRowData/CreateModel must give back every field (sets as sets); each column's wire form is compared with an independent RFC encoder; absent columns must leave pre-filled fields untouched; values of the wrong Go type (22 candidates per column) and ill-typed wire values must be rejected by NativeToOvs / SetField / OvsToNative. One known finding (integers beyond 2^53).",
